@@ -281,10 +281,10 @@ void ObjectFile::invalidate()
 }
 
 // Refresh the object if necessary
-void ObjectFile::refresh(bool isFirstTime /* = false */)
+void ObjectFile::refresh(bool isFirstTime /* = false */, bool isTransactionStart /* = false */)
 {
 	// Check if we're in the middle of a transaction
-	if (inTransaction)
+	if (inTransaction && !isTransactionStart)
 	{
 		DEBUG_MSG("The object is in a transaction");
 
@@ -767,26 +767,36 @@ std::string ObjectFile::getLockname() const
 // N.B.: Starting a transaction locks the object!
 bool ObjectFile::startTransaction(Access)
 {
-	MutexLocker lock(objectMutex);
-
-	if (inTransaction)
 	{
-		return false;
+		MutexLocker lock(objectMutex);
+
+		if (inTransaction)
+		{
+			return false;
+		}
+
+		transactionLockFile = new File(lockpath, umask, false, true, true);
+
+		if (!transactionLockFile->isValid() || !transactionLockFile->lock())
+		{
+			delete transactionLockFile;
+			transactionLockFile = NULL;
+
+			ERROR_MSG("Failed to lock file %s for attribute transaction", lockpath.c_str());
+
+			return false;
+		}
+
+		inTransaction = true;
 	}
 
-	transactionLockFile = new File(lockpath, umask, false, true, true);
-
-	if (!transactionLockFile->isValid() || !transactionLockFile->lock())
+	// Another process may have committed changes to this object after it
+	// was last refreshed. Load them now that the transaction lock is held;
+	// the commit writes back all attributes and would otherwise undo them.
+	if (gen->wasUpdated())
 	{
-		delete transactionLockFile;
-		transactionLockFile = NULL;
-
-		ERROR_MSG("Failed to lock file %s for attribute transaction", lockpath.c_str());
-
-		return false;
+		refresh(true, true);
 	}
-
-	inTransaction = true;
 
 	return true;
 }
